@@ -201,7 +201,7 @@ def t_details(ds):
 
 def t_rec(d):
     return "(R %s %s %s %s %s %s)" % (q.nat(d["id"]), nats(d["tags"]), t_details(d["details"]),
-                                      STATUS.get(d["status"], "Exists (* unknown word *)"),
+                                      STATUS[d["status"]],
                                       q.option(d["ts"][0], q.nat), q.option(d["ts"][1], q.nat))
 
 
